@@ -834,12 +834,15 @@ class DocTest:
                 except KeyboardInterrupt:  # nocover
                     raise
                 except Exception:
-                    raise
-                    # self.exc_info = sys.exc_info()
-                    # ex_type, ex_value, tb = self.exc_info
-                    # self.failed_tb_lineno = tb.tb_lineno
-                    # if on_error == 'raise':
-                    #     raise
+                    # The part parsed, but it cannot be compiled (e.g. a
+                    # ``return`` outside of a function). Record this like any
+                    # other failure instead of aborting the caller.
+                    self.exc_info = sys.exc_info()
+                    ex_type, ex_value, tb = self.exc_info
+                    self.failed_tb_lineno = getattr(ex_value, 'lineno', None) or 1
+                    if on_error == 'raise':
+                        raise
+                    break
                 try:
                     # Execute the doctest code
                     try:
@@ -1321,17 +1324,24 @@ class DocTest:
                                 # raise Exception('foo')
                                 # continue
 
+                        lineno_match = None
                         if self._partfilename is not None and self._partfilename in line:
+                            # The line number follows the file name. A frame
+                            # line ends with ", in <name>", but the location
+                            # line of a SyntaxError does not.
+                            pos = line.index(self._partfilename) + len(self._partfilename)
+                            lineno_match = re.compile(r'"?, (line (\d+))').match(line, pos)
+                        if lineno_match is not None:
                             # Intercept the line corresponding to the doctest
-                            tbparts = line.split(',')
-                            tb_lineno = int(tbparts[-2].strip().split()[1])
+                            tb_lineno = int(lineno_match.group(2))
                             # modify the line number to match the doctest
-                            linepart = tbparts[-2].split(' ')
+                            linepart = lineno_match.group(1).split(' ')
 
                             linepart = overwrite_lineno(linepart)
 
-                            tbparts[-2] = ' '.join(linepart)
-                            new_line = ','.join(tbparts)
+                            new_line = (line[:lineno_match.start(1)] +
+                                        ' '.join(linepart) +
+                                        line[lineno_match.end(1):])
 
                             # failed_ctx = '>>> ' + self.failed_part.exec_lines[tb_lineno - 1]
                             orig_lines = self.failed_part.orig_lines
